@@ -503,12 +503,18 @@ func (bc *BlockChain) insert(block *types.Block) {
 	// If the block is on a side chain or an unknown one, force other heads onto it too
 	updateHeads := GetCanonicalHash(bc.db, block.NumberU64()) != block.Hash()
 
-	// Add the block to the canonical chain number scheme and mark as the head
-	if err := WriteCanonicalHash(bc.db, block.Hash(), block.NumberU64()); err != nil {
+	// Add the block to the canonical chain number scheme and mark as the head.
+	// Both go out in one atomic batch: with two separate writes a crash in
+	// between leaves the old head with a foreign block in its numbered ancestry.
+	headBatch := bc.db.NewBatch()
+	if err := WriteCanonicalHash(headBatch, block.Hash(), block.NumberU64()); err != nil {
 		log.Crit("Failed to insert block number", "err", err)
 	}
-	if err := WriteHeadBlockHash(bc.db, block.Hash()); err != nil {
+	if err := WriteHeadBlockHash(headBatch, block.Hash()); err != nil {
 		log.Crit("Failed to insert head block hash", "err", err)
+	}
+	if err := headBatch.Write(); err != nil {
+		log.Crit("Failed to insert head block", "err", err)
 	}
 	bc.currentBlock.Store(block)
 
